@@ -33,6 +33,9 @@
    _mi_heap_realloc_zero is not an operation here: a moving rezalloc is OMalloc(zero) + OWrite (the copy) + OFree and
    an in-place one touches neither flag nor memory; its byte-level zero tail is Model/Api.v (C04_rezalloc_chain_zero).
    The list part of a page (free / local_free / thread_free, capacity, used) is Model/Page.v, re-used as is.
+   Not modelled: blocks_purge and the purge schedule (Model/Purge.v; no flag depends on them: a purge is the operation
+   OArenaPurge / OSegPurge on free memory), and the three other readers of memid.initially_zero, all for allocator
+   meta data (mi_arena_static_zalloc, _mi_arena_meta_zalloc, mi_thread_data_zalloc: they memzero unless the flag is set).
 
    FLAGS THAT ARE CONSTANT FALSE in this configuration (checked against the source and proved:
    ZeroProofs.page_flags_false): page->is_zero_init is written in exactly two places, both `= false`
